@@ -368,3 +368,38 @@ class G:
             cfn = self.p(0.2)
         d = self.cfn_doc() if cfn else self.doc()
         return {"rules": self.rules_file(d, cfn=cfn), "data": json.dumps(d)}
+
+
+# ---------------------------------------------------------------- structured programs (C04 / C15)
+
+class SG(G):
+    """programs kept as structure (rules -> lines -> alternatives) so that lines, alternatives
+    and rules can be permuted / duplicated before printing"""
+
+    def lines(self, cur, vars_, depth, n=None, rules=(), top=True):
+        out = []
+        for _ in range(n or self.ch([1, 2, 2, 3, 3, 4])):
+            alts = [self.clause(cur, vars_, depth, rules, (), top=top) for _ in range(self.ch([1, 1, 2, 3]))]
+            out.append(alts)
+        return out
+
+    def program(self, doc):
+        lets, vars_ = self.lets(doc, [], self.ch([0, 1, 2]))
+        n = self.ch([1, 2, 3, 4])
+        names = ["r%d" % i for i in range(n)]
+        rules = []
+        for i, name in enumerate(names):
+            others = [x for x in names if x != name and (self.core or True)]
+            # only reference rules in a way that cannot form a cycle: lower-numbered rules
+            refs = [x for x in names[:i]] if self.p(0.7) else []
+            ls, vs = self.lets(doc, vars_, self.ch([0, 0, 1]))
+            rules.append({"name": name, "lets": ls, "lines": self.lines(doc, vs, 1, rules=refs)})
+        return {"lets": lets, "rules": rules}
+
+
+def print_program(p):
+    out = list(p["lets"])
+    for r in p["rules"]:
+        body = list(r["lets"]) + [" or ".join(alts) for alts in r["lines"]]
+        out.append("rule %s {\n%s\n}" % (r["name"], "\n".join(body)))
+    return "\n".join(out) + "\n"
